@@ -42,6 +42,9 @@ _Bool g_cur_match; unsigned g_check_calls; time_t g_clock;
 unsigned g_field_value; int g_decode_result;
 static inline void env_time(time_t* t) { time_t n = nondet_long(); __CPROVER_assume(n >= g_clock && n < (1L << 33)); g_clock = n; *t = n; }   /* monotone, may repeat a second */
 static inline result_t Message_decodeLastDataNumField(const struct Message* m, const char* field, ssize_t idx, unsigned* out) { if (g_decode_result == RESULT_OK) *out = g_field_value; return (result_t)g_decode_result; }
+/* SingleDataField::getName(-1) (not extracted): the name of the field itself */
+static inline vstr SDF_getName(const struct SDF* f, long idx) { (void)idx; return f->m_name; }
+static inline _Bool vstr_eq_cstr_v(vstr s, const char* c) { return vstr_eq_cstr(&s, c); }
 #include "gen_protos.h"
 static inline _Bool Cond_checkValue(struct Cond* self, struct Message* m, vstr field) { g_check_calls = g_check_calls + 1; return g_cur_match; }
 _Bool g_sub_true[CCAP]; unsigned g_sub_calls;
